@@ -67,7 +67,7 @@ reg(P(
 
 reg(P(
     "C20", "Lint is advisory and diagnostics point at the right line",
-    [("A6", ALL), ("A11", ALL), ("C7", ALL), ("B2", ALL), ("A5", {"check-only", "fatal"})],
+    [("A6", ALL), ("A11", ALL), ("C7", ALL), ("B2", ALL), ("A5", {"check-only", "fatal"}), ("A1", {"lint"})],
     "lint and renderers never write the AST (A6); every rule is registered, targets a supported type and cites the checked definition (A11); each rule tests its kind's convention with the right polarity (C7); positions come from tracked symbols, node token/column/line refer to the name symbol, the newline rule is the only line counter and no other token can swallow a newline, the diagnostic template contains file and L<line> (B2); check-only exits non-zero iff an error or a warning (A5).",
     "column arithmetic of _get_col; behaviour of pascal_case/snake_case on arbitrary words.",
 ))
@@ -152,7 +152,7 @@ reg(P(
 
 reg(P(
     "C14", "Every width x bit-offset x signedness combination is bit-exact in every runtime",
-    [("E1", ALL), ("D1", ALL), ("EC1", ALL), ("EC2", ALL), ("C2", ALL), ("CC2", ALL), ("D4", ALL), ("CD4", ALL), ("G1", ALL)],
+    [("E1", ALL), ("D1", ALL), ("EC1", ALL), ("EC2", ALL), ("C2", ALL), ("CC2", ALL), ("D4", ALL), ("CD4", ALL), ("G1", ALL), ("D2", ALL)],
     "the obligations are parametric in (n, si, di), which is this property's space: chunk bounds for Python/Go/planner (E1) and the chunk plan (D1); the C copier's obligations on every path for all 64 (si, di) pairs and every n in the path's interval, both build variants (EC1); batch predicate (EC2); storage partitions (C2, CC2); sign extension sites incl. bp.intN thresholds and the C cases (D4, CD4).",
     "bit-exactness of the C partial-byte expressions beyond their mask form.",
 ))
